@@ -32,7 +32,7 @@ fn flush_case(c: &(u64, u8), obs: &mut Obs) -> CaseResult {
             ensure!(log.len() == 1 && log[0].op == Op::Invlpg, "MapperFlush::flush trapped {:x?}", log);
             ensure_eq!(log[0].a, page.start_address().as_u64(), "MapperFlush::flush must invalidate the page's start address (page of {:#x}, size {:#x})", a, <$S>::SIZE);
             MapperFlush::new(page).ignore();
-            ensure!(cp.log_len == 0, "ignore() must not flush");
+            ensure!(cpu().log_len == 0, "ignore() must not flush");
         }};
     }
     match sz % 3 {
@@ -40,7 +40,7 @@ fn flush_case(c: &(u64, u8), obs: &mut Obs) -> CaseResult {
         1 => tok!(Size2MiB),
         _ => tok!(Size1GiB),
     }
-    ensure!(cp.unexpected == 0, "unexpected fault");
+    ensure!(cpu().unexpected == 0, "unexpected fault");
     if a & 0xfff != 0 || sz % 3 != 0 {
         obs.nontrivial(&(a, sz % 3));
     }
@@ -53,7 +53,7 @@ fn flush_all_case(c: &(u64, bool), obs: &mut Obs) -> CaseResult {
     let cr3 = cr3 & 0x000f_ffff_ffff_ffff;
     let cp = cpu();
     cp.reset();
-    cp.cr[3] = cr3;
+    cp.set_cr(3, cr3);
     if FLUSHALL_KNOWN.load(std::sync::atomic::Ordering::Relaxed) && cr3 & 0xfe7 != 0 {
         obs.exclude("C11-flush_all-drops-cr3-low-bits");
         return Ok(());
@@ -73,7 +73,7 @@ fn flush_all_case(c: &(u64, bool), obs: &mut Obs) -> CaseResult {
     ensure!(log.first().map(|t| t.op) == Some(Op::MovFromCr), "flush_all must read CR3 first: {:x?}", log);
     ensure_eq!(writes, vec![cr3], "flush_all must reload CR3 with its current value {:#x}", cr3);
     MapperFlushAll::new().ignore();
-    ensure!(cp.log_len == 0, "ignore() must not flush");
+    ensure!(cpu().log_len == 0, "ignore() must not flush");
     if cr3 & 0xfe7 != 0 {
         obs.label("cr3-with-pcid-bits");
         obs.nontrivial(&cr3);
@@ -264,7 +264,7 @@ fn bcast_run<S: x86_64::structures::paging::page::NotGiantPageSize>(b: &Bcast, o
     if let Outcome::Panic(m) = r {
         return Err(format!("flush() panicked: {} ({:x?})", m, b));
     }
-    ensure!(!cp.log_overflow, "trap log overflow");
+    ensure!(!cpu().log_overflow, "trap log overflow");
     let log = cp.take_log();
     let (sp, ep) = range_pos.unwrap();
     // decode every request per the AMD manual
@@ -413,7 +413,7 @@ pub static BCAST_KNOWN: std::sync::atomic::AtomicBool = std::sync::atomic::Atomi
 fn flush_all_reproduces() -> bool {
     let cp = cpu();
     cp.reset();
-    cp.cr[3] = 0x1234_5000 | 0x7;
+    cp.set_cr(3, 0x1234_5000 | 0x7);
     tlb::flush_all();
     let w: Vec<u64> = cp.take_log().iter().filter(|t| t.op == Op::MovToCr).map(|t| t.b).collect();
     cp.reset();
